@@ -110,7 +110,9 @@ fn looks_clear_hs(body: &[u8]) -> bool {
 pub fn descr_hs(dg: &[u8]) -> Vec<String> {
     parse_records(dg).iter().map(|r| {
         if r.ctype == 23 || r.ctype == 21 {
-            if r.epoch > 0 { format!("{}.{}.{}.{}{}", r.ctype, r.epoch, r.seq, r.body.len() as i64 - 24, nonce_tag(r)) }
+            // (an endpoint never sends these in clear; one closed between key derivation and its own ChangeCipherSpec seals
+            // its close_notify under an epoch-0 header)
+            if r.epoch > 0 || r.body.len() >= 24 { format!("{}.{}.{}.{}{}", r.ctype, r.epoch, r.seq, r.body.len() as i64 - 24, format!(".n{}", hex(&r.body[..8]))) }
             else { format!("{}.{}.{}.{}", r.ctype, r.epoch, r.seq, r.body.len()) }
         } else if r.ctype == 22 && (r.epoch == 0 || looks_clear_hs(&r.body)) {
             match parse_hs(&r.body).first() {
@@ -144,6 +146,14 @@ pub struct Recd {
     pub sig_ok_under: Vec<String>,
     /// property-level failures seen while recording (clear-text records acted on)
     pub clear_violations: Vec<String>,
+    /// body of the ServerKeyExchange learned last (the one whose share the next key derivation uses)
+    last_ske_body: Option<Vec<u8>>,
+    /// at the moment keys were derived: fingerprints of the leaves under which that last ServerKeyExchange verifies
+    /// (with this client's random and any server random seen)
+    pub key_share_signed_by: Vec<String>,
+    /// every sealed record (epoch >= 1) this endpoint ever sent: (epoch, seq, explicit nonce) -> record bytes
+    sealed_sent: BTreeMap<(u16, u64), Vec<u8>>,
+    sealed_nonces: BTreeMap<Vec<u8>, Vec<u8>>,
 }
 
 impl Recd {
@@ -152,10 +162,23 @@ impl Recd {
         // the key log is keyed by an address: drop whatever an earlier transport at the same address left behind
         let _ = rustrtc::verif_hooks::dtls::take_keys(ep.dtls.verif_instance_id());
         Recd { ep, expected, ops: vec![], outs: vec![], facts: BTreeMap::new(), keys: vec![], own: vec![], certs_seen: vec![],
-            srs_seen: vec![], last_ske_share: None, frag: (0, vec![]), frag2: (0, vec![]), ticks_done: 0, shown_cert_fps: vec![], sig_ok_under: vec![], clear_violations: vec![] }
+            srs_seen: vec![], last_ske_share: None, frag: (0, vec![]), frag2: (0, vec![]), ticks_done: 0, shown_cert_fps: vec![], sig_ok_under: vec![], clear_violations: vec![], last_ske_body: None, key_share_signed_by: vec![], sealed_sent: BTreeMap::new(), sealed_nonces: BTreeMap::new() }
     }
 
     fn note_sent(&mut self, sent: &[Vec<u8>]) {
+        // "no two records under one key reuse a nonce", handshake included: Finished, close_notify and application
+        // records share the write key; a byte-identical record is a retransmission, anything else is a reuse
+        for dg in sent { for r in parse_records(dg) {
+            if r.epoch == 0 || r.body.len() < 8 || (r.ctype == 22 && looks_clear_hs(&r.body)) { continue; }
+            let bytes = record_bytes(r.ctype, (r.vmaj, r.vmin), r.epoch, r.seq, &r.body);
+            if let Some(prev) = self.sealed_sent.get(&(r.epoch, r.seq)) { if *prev != bytes {
+                self.clear_violations.push(format!("nonce:reused:handshake-phase:epoch-{}-seq-{}:type-{}", r.epoch, r.seq, r.ctype)); } }
+            else { self.sealed_sent.insert((r.epoch, r.seq), bytes.clone()); }
+            let en = r.body[..8].to_vec();
+            if let Some(prev) = self.sealed_nonces.get(&en) { if *prev != bytes {
+                self.clear_violations.push(format!("nonce:explicit-nonce-reused:handshake-phase:type-{}", r.ctype)); } }
+            else { self.sealed_nonces.insert(en, bytes); }
+        } }
         for dg in sent { for r in parse_records(dg) {
             if r.ctype == 22 && r.epoch == 0 { for m in parse_hs(&r.body) { if m.off == 0 && m.total as usize == m.body.len() { self.own.push((m.typ, m.body)); } } }
         } }
@@ -243,6 +266,7 @@ impl Recd {
                 Ok(ske) => {
                     self.facts.insert(format!("sk:{key}"), hex(&ske.public_key));
                     self.last_ske_share = Some(ske.public_key.clone());
+                    self.last_ske_body = Some(body.to_vec());
                     let cr = self.client_random();
                     for leaf in self.certs_seen.clone() { for sr in self.srs_seen.clone() {
                         if ske_sig_ok(&leaf, &cr, &sr, &ske) {
@@ -287,6 +311,14 @@ impl Recd {
         let sent = self.ep.pump().await;
         self.note_sent(&sent);
         let newk = rustrtc::verif_hooks::dtls::take_keys(self.ep.dtls.verif_instance_id());
+        if !newk.is_empty() && self.ep.is_client {
+            self.key_share_signed_by.clear();
+            if let Some(b) = self.last_ske_body.clone() { if let Ok(ske) = ServerKeyExchange::decode(&mut Bytes::copy_from_slice(&b)) {
+                let cr = self.client_random();
+                for leaf in self.certs_seen.clone() { for sr in self.srs_seen.clone() {
+                    if ske_sig_ok(&leaf, &cr, &sr, &ske) { self.key_share_signed_by.push(fp_text(&leaf)); } } }
+            } }
+        }
         for k in newk {
             if let Some(share) = &self.last_ske_share {
                 let mut key = share.clone();
@@ -355,6 +387,7 @@ impl Recd {
     pub async fn close(&mut self) -> Vec<Vec<u8>> {
         self.ep.dtls.close();
         let sent = self.ep.pump().await;
+        self.note_sent(&sent);
         self.ops.push("cl".into());
         let o = self.obs(&sent);
         self.outs.push(o);
@@ -364,6 +397,7 @@ impl Recd {
     pub async fn send(&mut self, data: &[u8]) -> Vec<Vec<u8>> {
         let _ = self.ep.dtls.send(Bytes::copy_from_slice(data)).await;
         let sent = self.ep.pump().await;
+        self.note_sent(&sent);
         self.ops.push(format!("sd,{}", hex(data)));
         let o = self.obs(&sent);
         self.outs.push(o);
